@@ -534,6 +534,18 @@ def run(ctx, col: Collector):
                       f'(line continuation): adding such a comment removes the following element from the parsed database', node=_N(g), file=g.file)
     guarded(col, 'C14-inert', 'inertness', inert)
 
+    def inert_equality():
+        # a comment changes nothing but `comment` attributes - in particular not whether two declarations of one relationship count as the same reference
+        # (rule shared with C06-eq: Reference equality is the identity of the relationship only)
+        sub = ctx.sub('c06', col.prop)
+        n = 0
+        for o in sub.obs:
+            if o.rule == 'C06-eq' and o.construct in ('Reference.eq:only-identity', 'SQLObject.__eq__:drops-fields', 'Reference.__eq__:inherited'):
+                n += 1
+                col.obs.append(type(o)(col.prop, 'C14-inert', 'reference-equality:' + o.construct, o.status, o.msg, o.file, o.line, o.extra))
+        col.floor('C14-inert', 'reference equality obligations', n, 1)
+    guarded(col, 'C14-inert', 'equality', inert_equality)
+
 
 # ----------------------------------------------------------------------------------------------
 
